@@ -1,5 +1,7 @@
 package slicez
 
+import "unsafe"
+
 type FlexSlice[T any] struct {
 	Values []T
 }
@@ -16,6 +18,10 @@ func (f *FlexSlice[T]) Prepend(v ...T) {
 	c := cap(f.Values)
 	nc := n1 + n2
 	if c >= nc {
+		if n1 > 0 && n2 > 0 && overlaps(v, f.Values[:nc]) {
+			// v is a piece of f.Values itself: the shift below would overwrite it before it is copied
+			v = append(make([]T, 0, n1), v...)
+		}
 		f.Values = f.Values[:nc]
 		copy(f.Values[n1:], f.Values[:n2])
 		copy(f.Values, v)
@@ -102,4 +108,17 @@ func (f *FlexSlice[T]) shrink() {
 
 func (f *FlexSlice[T]) withinRange(index int) bool {
 	return index >= 0 && index < len(f.Values)
+}
+
+// overlaps reports whether the memory ranges a[:len(a)] and b[:len(b)] overlap.
+func overlaps[T any](a, b []T) bool {
+	if len(a) == 0 || len(b) == 0 {
+		return false
+	}
+	elemSize := unsafe.Sizeof(a[0])
+	if elemSize == 0 {
+		return false
+	}
+	return uintptr(unsafe.Pointer(&a[0])) <= uintptr(unsafe.Pointer(&b[len(b)-1]))+(elemSize-1) &&
+		uintptr(unsafe.Pointer(&b[0])) <= uintptr(unsafe.Pointer(&a[len(a)-1]))+(elemSize-1)
 }
